@@ -40,6 +40,10 @@ KNOWN = [
      "in one interpreter blocks for good in Ppmd7T_decode (main thread and decoder thread both wait for a mutex nobody holds; gdb stack in DESIGN.md). Reproduced without py7zr's loops by "
      "calling decode() after the output is complete. PPMd7 has no end marker and Ppmd7Decoder.eof is also true in the middle of valid streams, so py7zr cannot tell the cases apart. The "
      "runner files a no-progress block under this key only when the innermost Python frame is PpmdDecompressor.decompress and the input was not a valid archive."),
+    ("C05", "codec-library/pyppmd-decoder-thread-leak",
+     "same pyppmd defect as codec-library/pyppmd-decoder-deadlock, seen before the block sets in: every session on a PPMd folder that declares more output than its stream holds leaves one "
+     "native thread behind (counted at the library boundary: the thread appears during Ppmd7Decoder.decode() and never ends). Key with suffix /valid-archive is not listed: a leak on a valid "
+     "archive would be a new finding."),
     ("C04", "codec-library/pyppmd-decoder-deadlock", "same pyppmd defect as C05, reachable with a corrupted PPMd stream."),
     ("C13", "codec-library/pyppmd-decoder-deadlock", "same pyppmd defect as C05, reachable with a damaged PPMd stream."),
     ("C15", "codec-library/pyppmd-decoder-deadlock", "same pyppmd defect as C05, reachable with a truncated PPMd archive."),
